@@ -29,7 +29,7 @@ def expect_index_error(fn, inp):
     except Exception as e:
         R.violation('oracle', inp, f'raised {type(e).__name__} instead of IndexError: {e}')
         return
-    R.violation('oracle', inp, f'a coordinate that is not on the axis returned data of shape {getattr(r, "shape", None)} instead of raising IndexError')
+    R.violation('oracle', inp, f'a coordinate or ordinal outside the axis returned data of shape {getattr(r, "shape", None)} instead of raising IndexError')
 
 
 def main():
@@ -131,6 +131,24 @@ def main():
                     inp = dict(label, call='get_trace_by_coord', args=[tr, float(lo), float(hi)], expect='IndexError')
                     R.case(('tw-off', ci, float(lo), float(hi)), sample=inp)
                     expect_index_error(lambda: r.get_trace_by_coord(tr, float(lo), float(hi)), inp)
+            # ---- ordinal accessors of the emulator: negative ordinals are Python indexing, anything below -len or
+            #      at/above len is refused (never wrapped onto a real item)
+            with seismic_zfp.open(p) as f:
+                for name, acc, n in (('trace', f.trace, n_il * n_xl), ('header', f.header, n_il * n_xl), ('depth_slice', f.depth_slice, ns)):
+                    for k in (-1, -n):
+                        inp = dict(label, call=f'{name}[{k}]')
+                        R.case(('acc', ci, name, k), sample=inp)
+                        try:
+                            got, want = acc[k], acc[n + k]
+                            same = (got == want) if name == 'header' else bits_equal(got, want)
+                            if not same:
+                                R.violation('oracle', inp, f'{name}[{k}] is not {name}[{n + k}]')
+                        except Exception as e:
+                            R.violation('oracle', inp, f'in-range negative ordinal raised {type(e).__name__}: {e}')
+                    for k in (-n - 1, -n - 2, -2 * n, -3 * n - 1, n, n + 1, 2 * n):
+                        inp = dict(label, call=f'{name}[{k}]', length=n, expect='IndexError')
+                        R.case(('acc-off', ci, name, k), sample=inp)
+                        expect_index_error(lambda: acc[k], inp)
             os.remove(p)
     finally:
         shutil.rmtree(d, ignore_errors=True)
